@@ -14,7 +14,8 @@
    every router end and drains every request: every channel must then be closed, complete. *)
 EXTENDS ProviderQueryManager, Json
 
-CONSTANTS D        \* number of free stimuli per behaviour
+CONSTANTS D,       \* number of free stimuli per behaviour
+          Ops      \* the stimuli the free part may use (the epilogue is not restricted)
 VARIABLES ws,      \* <<ideal, {DevS}, {DevO}, {DevS,DevO}>> worlds (ws[1] = w)
           alive,   \* variants that could follow the stimulus sequence so far
           hist, seen, fin
@@ -53,7 +54,8 @@ StimF(u0, s) ==
 \* the result of that stimulus
 NS(u) == Cardinality(Started(u))
 Obs(u, s) ==
-  [st |-> [k \in Keys |-> [has |-> Has(u, k), n |-> Cardinality(u.status[k].ls), sofar |-> u.status[k].sofar]],
+  [st |-> [k \in Keys |-> IF u.closed THEN [has |-> FALSE, n |-> 0, sofar |-> <<>>]   \* the map is dead after Close
+                          ELSE [has |-> Has(u, k), n |-> Cardinality(u.status[k].ls), sofar |-> u.status[k].sofar]],
    rq |-> SubSeq([q \in Qs |-> u.qry[q].key], 1, NS(u)),
    cx |-> SubSeq([q \in Qs |-> u.qry[q].cerr], 1, NS(u)),
    dl |-> SubSeq([q \in Qs |-> [i \in Idx |-> IF u.qry[q].dial[i] = "pending" THEN 1 ELSE 0]], 1, NS(u)),
@@ -80,7 +82,7 @@ EpiStims ==
      ELSE IF rn # {} THEN {St("End", MinOf(rn), 0, "")}
      ELSE IF dr # {} THEN {St("Drain", MinOf(dr), 0, "")}
      ELSE {}
-Stims == IF Len(hist) < D THEN FreeStims ELSE EpiStims
+Stims == IF Len(hist) < D THEN {s \in FreeStims : s.op \in Ops} ELSE EpiStims
 
 NextWorlds(s) == [v \in 1..4 |-> IF v \in alive /\ StimEn(ws[v], s) THEN Settle(StimF(ws[v], s), VSet(v)) ELSE ws[v]]
 GStep(s) ==
